@@ -33,7 +33,9 @@ def compact(events):
     out = []
     for e in events:
         ev = e.get("ev")
-        if ev == "st":
+        if ev == "synthetic":
+            out.append({k: v for k, v in e.items() if k != "ev"})
+        elif ev == "st":
             op, p = e["op"], e["path"]
             if is_lock(p):
                 continue
@@ -67,4 +69,25 @@ def compact(events):
             out.append({"e": "gc", "listing": e["listing"]})
         elif ev == "end":
             out.append({"e": "end", "listing": e["listing"], "managed": e.get("managed", [])})
+    return out
+
+
+def mark_gcrace(run):
+    """gate-forced GC race: the victim thread is parked right after a file creation while the user
+    thread collects garbage; the segment it is creating is under construction during that GC"""
+    tag = run[0].get("tag") or {}
+    if not tag.get("gcrace"):
+        return run
+    gi = next((i for i, e in enumerate(run) if e.get("ev") == "gc"), None)
+    if gi is None:
+        return run
+    victim = "worker" if tag.get("run", 0) % 2 == 0 else "merge"
+    ci = next((i for i in range(gi, -1, -1) if run[i].get("ev") == "st" and run[i].get("op") == "open_write" and run[i].get("ok")
+               and str(run[i].get("th", "")).startswith(victim) and SEG.match(run[i]["path"])), None)
+    if ci is None:
+        return run
+    sid = int(SEG.match(run[ci]["path"]).group(1))
+    out = list(run)
+    out.insert(gi + 1, {"ev": "synthetic", "e": "build_end", "sid": sid})
+    out.insert(ci + 1, {"ev": "synthetic", "e": "build_start", "sid": sid})
     return out
